@@ -514,10 +514,18 @@ void janetc_throwaway(JanetFopts opts, Janet x) {
     JanetScope unusedScope;
     int32_t bufstart = janet_v_count(c->buffer);
     int32_t mapbufstart = janet_v_count(c->mapbuffer);
+    /* Function definitions compiled in dead code resolve captured symbols as if
+     * they were their own locals, so they must not stay in the enclosing function. */
+    JanetScope *funscope = c->scope;
+    while (funscope && !(funscope->flags & JANET_SCOPE_FUNCTION))
+        funscope = funscope->parent;
+    int32_t defstart = funscope ? janet_v_count(funscope->defs) : 0;
     janetc_scope(&unusedScope, c, JANET_SCOPE_UNUSED, "unusued");
     janetc_value(opts, x);
     janetc_lintf(c, JANET_C_LINT_STRICT, "dead code, consider removing %.2q", x);
     janetc_popscope(c);
+    if (funscope && funscope->defs)
+        janet_v__cnt(funscope->defs) = defstart;
     if (c->buffer) {
         janet_v__cnt(c->buffer) = bufstart;
         if (c->mapbuffer)
